@@ -30,7 +30,7 @@ bool BuildNode::configureAttribute(const ConfigureContext& ctx, StringRef name,
     if (value == "plain") {
       type = NodeType::Plain;
     } else if (value == "directory") {
-      type = NodeType::Plain;
+      type = NodeType::Directory;
     } else if (value == "directory-structure") {
       type = NodeType::DirectoryStructure;
     } else if (value == "virtual") {
